@@ -197,7 +197,7 @@ def emit_cases(wd, par, rng, counts):
 # ---------------------------------------------------------------------------------------------
 # driving the implementation
 
-PRES = ("base", "none", "shift", "basis", "replica", "intvecs", "sim", "f32", "split", "session", "int", "argforms")
+PRES = ("base", "none", "shift", "basis", "replica", "intvecs", "sim", "f32", "split", "session", "int", "argforms", "halfint")
 SIM_TOL = 1e-6   # integer units; see module docstring (presentations)
 
 
@@ -257,6 +257,10 @@ def _inputs(case, pres, seed):
         extra = {"k": k, "Q": Q}
     flat = case["form"] == "flat"
     sel = (int(case["inner"]) + int(case["cell"])) % 3
+    if pres == "halfint":      # units of 2: integer-dtype points (all even in the base case), half-integer everything else
+        P, A, C = (P / 2).astype(np.int64), A / 2, C / 2
+        radius = radius / 2
+        back = lambda X: np.asarray(X, dtype=float) * 2   # noqa: E731
     if pres == "int":
         P, W, C = P.astype(np.int64), W.astype(np.int64), C.astype(np.int64)
     elif pres == "intvecs":
